@@ -352,26 +352,42 @@ func c20RunSelect(in c20In) (out c20Out) {
 		}
 		defer m.Close()
 		cmd.Stdout = sl
-		done := make(chan []byte)
+		// The parent keeps the slave open and, once the child has exited, writes a sentinel through
+		// it: a pty is a FIFO, so when the sentinel has been read everything the child wrote has
+		// been read.  (Closing the slave and reading until EIO is not reliable: bytes written just
+		// before the hang-up can still be in the tty's flip buffer and are then dropped — seen once
+		// in 16106 cases as a stream that lacked the bytes of Close.)
+		sentinel := []byte("\x1e\x1eC20-END-OF-PTY-OUTPUT\x1e\x1e")
+		done := make(chan []byte, 1)
 		go func() {
 			var acc []byte
 			b := make([]byte, 4096)
 			for {
 				n, err := m.Read(b)
 				acc = append(acc, b[:n]...)
+				if i := bytes.Index(acc, sentinel); i >= 0 {
+					done <- acc[:i]
+					return
+				}
 				if err != nil {
-					break
+					done <- nil // the master failed before the sentinel arrived
+					return
 				}
 			}
-			done <- acc
 		}()
 		err = cmd.Run()
-		sl.Close() // the last slave handle: the master now reads EIO after the buffered bytes
+		if _, werr := sl.Write(sentinel); werr != nil {
+			panic(fmt.Sprintf("harness: writing the pty sentinel: %v", werr))
+		}
 		select {
 		case arrived = <-done:
+			if arrived == nil {
+				panic("harness: the pty master failed before the end-of-output sentinel arrived")
+			}
 		case <-time.After(20 * time.Second):
-			panic("reading the pty master timed out")
+			panic("harness: reading the pty master timed out")
 		}
+		sl.Close()
 		if err != nil {
 			panic(fmt.Sprintf("child: %v: %s", err, stderr.String()))
 		}
